@@ -42,6 +42,13 @@ def field_attr_variants(rnd):
         ("rename+skip_serializing_if", None, "Option<i32>"),
         ("doc-mentions-skip", ['#[doc = "skip this, rename = \\"nope\\""]'], "i32"),
         ("skip+default", ["#[serde(skip, default)]"], "i32"),
+        # one-directional skips and conversion hooks: the statement makes a field absent iff it carries #[serde(skip)] itself, so these
+        # keep the field (the oracle crate is compiled without them to learn the wire name)
+        ("skip_serializing", ["#[serde(skip_serializing)]"], "i32"),
+        ("skip_deserializing", ["#[serde(skip_deserializing)]"], "i32"),
+        ("default,separate-skip_serializing", ["#[serde(default)]", "#[serde(skip_serializing)]"], "i32"),
+        ("serialize_with-fn-named-skip", ['#[serde(serialize_with = "skip_ser")]'], "i32"),
+        ("with-module-named-rename", ['#[serde(with = "rename_mod")]'], "i32"),
         ("default,separate-skip", ["#[serde(default)]", "#[serde(skip)]"], "i32"),
     ]
     res = []
@@ -120,7 +127,8 @@ def rust_defs(types, for_oracle):
     out = []
     for t in types:
         if t["kind"] == "struct":
-            fields = [(ident, ty, [a for a in attrs if for_oracle is False or not a.startswith("#[validate")]) for (ident, label, attrs, ty) in t["items"]]
+            hidden = ("#[validate", "#[serde(skip_serializing)]", "#[serde(skip_deserializing)]", "#[serde(serialize_with", "#[serde(with")
+            fields = [(ident, ty, [a for a in attrs if for_oracle is False or not a.startswith(hidden)]) for (ident, label, attrs, ty) in t["items"]]
             out.append(rg.struct_src(t["name"], fields, rename_all=t["rename_all"], attrs=["#[allow(non_snake_case)]"],
                                      derive_style=rg.DERIVE_STYLES[hash(t["name"]) % len(rg.DERIVE_STYLES)] if False else rg.DERIVE_STYLES[int(t["name"][1:]) % len(rg.DERIVE_STYLES)]))
         else:
